@@ -82,6 +82,10 @@ def run_history(case, stats=None):
                     user_figs.append(fig.number)
                     bump('fault.user_owned_figure_open')
                     continue
+                if kind == 'set_style':
+                    from ampycloud import dynamic
+                    dynamic.AMPYCLOUD_PRMS['MPL_STYLE'] = op[1]
+                    continue
                 if kind == 'user_close':
                     if user_figs:
                         plt.close(user_figs.pop(0))
@@ -192,6 +196,8 @@ def run_history(case, stats=None):
         finally:
             plt.close('all')
             matplotlib.rcdefaults()
+            from ampycloud import dynamic as _dyn
+            _dyn.AMPYCLOUD_PRMS['MPL_STYLE'] = 'base'
     return None
 
 
@@ -247,6 +253,8 @@ def gen_ops(rng, n_chunks):
             ops.append(['user_figure', rng.randint(1, 5)])
         elif x < 0.25:
             ops.append(['user_close'])
+        elif x < 0.29:
+            ops.append(['set_style', rng.choice([None, 'base'])])
         else:
             save = rng.random() < 0.8
             stem = None
@@ -291,7 +299,8 @@ def execute(run):
             if rng_scene.random() < 0.3 and 'MSA' not in sc['prms']:
                 sc['prms'] = dict(sc['prms'], MSA=rng_scene.choice([3000, 9000]))
             pool.append(sc)
-            metas.append({'geoloc': rng_scene.choice([None, 'Geneva', 'LSZH rwy 14']),
+            metas.append({'geoloc': rng_scene.choice([None, 'Geneva', 'LSZH rwy 14', 'LSZH_rwy_14',
+                                                      'site 100% b']),
                           'ref_dt': rng_scene.choice([None, '2026-01-01 12:00:00'])})
         ops = gen_ops(rng_ops, len(pool))
         case = {'scenes': pool, 'metas': metas, 'ops': ops}
